@@ -524,6 +524,17 @@ static bool process_line(AsmState *state, const char *line, AsmResult *result) {
             }
             state->patch_count = new_count;
 
+            /* Labels are scoped to their function too: drop them, so that MAX_LABELS limits one
+             * function and not the whole module (a module with more than MAX_LABELS jump targets
+             * in total was refused with a misleading "Duplicate label") */
+            uint32_t kept = 0;
+            for (uint32_t i = 0; i < state->label_count; i++) {
+                if (state->labels[i].function != state->current_function) {
+                    state->labels[kept++] = state->labels[i];
+                }
+            }
+            state->label_count = kept;
+
             return true;
         }
 
